@@ -104,10 +104,6 @@ theorem C07_f_exclusive (th0 : List TS) (h0 : ∀ x ∈ th0, x.loc = .idle) {s :
 /-- non-vacuity: a concrete reachable state with a thread inside `f` (two threads, one call each) -/
 def exProg : List TS := [{ todo := [[1]] }, { todo := [[2, 3]] }]
 
-def runActs (s : St) : List Act → Option St
-  | [] => some s
-  | a :: r => (step s a).bind (fun s' => runActs s' r)
-
 /-- thread 0 enters alone, arrives, becomes executor and calls `f` -/
 def exTrace : List Act := (List.replicate 9 (Act.step 0))
 
